@@ -98,6 +98,16 @@ func c37Resplit(e c37ResultEvent, seedBase int, shift int) (c37ResultEvent, bool
 	return out, true
 }
 
+// c37Derive fills b deterministically from (base, salt).
+func c37Derive(b []byte, base, salt uint64) {
+	for i := 0; i < len(b); i += 8 {
+		v := verifsim.Mix(base, salt*64+uint64(i/8)+1)
+		for j := 0; j < 8 && i+j < len(b); j++ {
+			b[i+j] = byte(v >> (8 * uint(j)))
+		}
+	}
+}
+
 func c37Run(t *testing.T, r *verifsim.Run) {
 	tp := r.T
 	d := newDeduplicator()
@@ -147,6 +157,30 @@ func c37Run(t *testing.T, r *verifsim.Run) {
 				Desc:    "seed=0x" + s.Text(16),
 				Deliver: func() bool { return d.notifyDKGStarted(new(big.Int).Set(s)) },
 			})
+		}
+		cfg.MakeBurst = func(base uint64, n int) []verifadapt.C37Event {
+			var out []verifadapt.C37Event
+			for i := 0; i < n; i++ {
+				b := make([]byte, 24)
+				c37Derive(b, base, uint64(i))
+				b[0] |= 0x80 // 192-bit values: distinct from every seed above with overwhelming probability
+				s := new(big.Int).SetBytes(b)
+				dup := false
+				for _, o := range seeds {
+					if o.Cmp(s) == 0 {
+						dup = true
+					}
+				}
+				if dup {
+					continue
+				}
+				seeds = append(seeds, s)
+				out = append(out, verifadapt.C37Event{
+					Desc:    "seed=0x" + s.Text(16),
+					Deliver: func() bool { return d.notifyDKGStarted(new(big.Int).Set(s)) },
+				})
+			}
+			return out
 		}
 	case 1: // DKG result submitted: (seed, result hash, block)
 		cfg.Func, cfg.Period = "tbtc.notifyDKGResultSubmitted", DKGResultHashCachePeriod
@@ -207,6 +241,32 @@ func c37Run(t *testing.T, r *verifsim.Run) {
 				Deliver: func() bool { return d.notifyDKGResultSubmitted(new(big.Int).Set(e.seed), e.hash, e.block) },
 			})
 		}
+		cfg.MakeBurst = func(base uint64, n int) []verifadapt.C37Event {
+			var out []verifadapt.C37Event
+			for i := 0; i < n; i++ {
+				sb := make([]byte, 16)
+				c37Derive(sb, base, uint64(3*i))
+				var bb [8]byte
+				c37Derive(bb[:], base, uint64(3*i+2))
+				e := c37ResultEvent{seed: new(big.Int).SetBytes(sb), block: uint64(bb[0])<<16 | uint64(bb[1])<<8 | uint64(bb[2])}
+				c37Derive(e.hash[:], base, uint64(3*i+1))
+				dup := false
+				for _, o := range evs {
+					if o.equal(e) {
+						dup = true
+					}
+				}
+				if dup {
+					continue
+				}
+				evs = append(evs, e)
+				out = append(out, verifadapt.C37Event{
+					Desc:    e.desc(),
+					Deliver: func() bool { return d.notifyDKGResultSubmitted(new(big.Int).Set(e.seed), e.hash, e.block) },
+				})
+			}
+			return out
+		}
 	default: // wallet closed: 32-byte wallet ID
 		cfg.Func, cfg.Period = "tbtc.notifyWalletClosed", WalletClosedCachePeriod
 		var ids [][32]byte
@@ -250,6 +310,28 @@ func c37Run(t *testing.T, r *verifsim.Run) {
 				Desc:    "wallet=0x" + hex.EncodeToString(id[:]),
 				Deliver: func() bool { return d.notifyWalletClosed(id) },
 			})
+		}
+		cfg.MakeBurst = func(base uint64, n int) []verifadapt.C37Event {
+			var out []verifadapt.C37Event
+			for i := 0; i < n; i++ {
+				var id [32]byte
+				c37Derive(id[:], base, uint64(i))
+				dup := false
+				for _, o := range ids {
+					if o == id {
+						dup = true
+					}
+				}
+				if dup {
+					continue
+				}
+				ids = append(ids, id)
+				out = append(out, verifadapt.C37Event{
+					Desc:    "wallet=0x" + hex.EncodeToString(id[:]),
+					Deliver: func() bool { return d.notifyWalletClosed(id) },
+				})
+			}
+			return out
 		}
 	}
 	r.Logf("kind=%s period=%v events=%d", cfg.Func, cfg.Period, len(cfg.Events))
